@@ -39,15 +39,23 @@ def h_nested(run, cfg):
     symc = cfg.get('symc', 0)
 
     def price(i, c):
-        if c == 'c' and symc and i == 3:
+        if c == 'c' and symc and i == 2:      # early enough that two more dates follow a bankruptcy of the parent
             return run.real('pc%d' % i, 0.5, 1000)
         return PR[c][i]
     data = frame(run, DTS, ['a', 'b', 'c'], price)
     integer = bool(cfg.get('int', 0))
     fee = (lambda q, p: 0.001953125 * abs(q) * p) if cfg.get('fee') else None
     kid = B.Strategy('kid', child_def(B, cfg['child']), ['a', 'b'])
+    add = None
+    if cfg.get('bidoffer'):
+        add = {'bidoffer': frame(run, DTS, ['a', 'b', 'c'], lambda i, c: {'a': 0.5, 'b': 0.25, 'c': 0.125}[c])}
     n = len(DTS)
-    does = [True] * n if cfg.get('does') == 'all' else [run.boolean('do%d' % i) for i in range(n)]
+    if cfg.get('does') == 'all':
+        does = [True] * n
+    elif cfg.get('does') == 'early':
+        does = [i < 2 for i in range(n)]        # the parent re-weights on the first two dates only (keeps later arithmetic linear in the symbolic price)
+    else:
+        does = [run.boolean('do%d' % i) for i in range(n)]
     GW = [0.5, 0.25, 0.75, 0.375, 0.625]
     k = int(cfg.get('symw', 1))        # the first k re-weights use a symbolic child weight, the rest grid weights (keeps degree <= 3)
     ws = [run.real('w%d' % i, 0.125, 0.875) if i < k else GW[i] for i in range(n)]
@@ -60,13 +68,26 @@ def h_nested(run, cfg):
                 return False
             target.temp['weights'] = {'kid': ws[i], 'c': wc}
             return True
-    par = B.Strategy('par', [A.RunDaily(), Gate(), A.Rebalance()], [kid, 'c'])
+    if cfg.get('levels') == 3:
+        # root -> mid -> kid : the innermost strategy must still equal its stand-alone run (same commissions reach it)
+        mid = B.Strategy('mid', [A.RunDaily(), A.WeighSpecified(kid=0.75), A.Rebalance()], [kid])
+
+        class Gate3(B.Algo):
+            def __call__(self, target):
+                i = list(DTS).index(target.now) if target.now in DTS else None
+                if i is None or not does[i]:
+                    return False
+                target.temp['weights'] = {'mid': ws[i], 'c': wc}
+                return True
+        par = B.Strategy('par', [A.RunDaily(), Gate3(), A.Rebalance()], [mid, 'c'])
+    else:
+        par = B.Strategy('par', [A.RunDaily(), Gate(), A.Rebalance()], [kid, 'c'])
     if cfg.get('capgrid'):
         cap = float(cfg['capgrid'])       # whole-unit sizing below a sub-allocation with symbolic capital stalls z3: concrete capital there
     else:
         cap = run.real('cap', 10 ** 4, 10 ** 7)
-    t = B.Backtest(par, data, initial_capital=cap, integer_positions=integer, commissions=fee)
-    t2 = B.Backtest(B.Strategy('kid', child_def(B, cfg['child']), ['a', 'b']), data, integer_positions=integer, commissions=fee)
+    t = B.Backtest(par, data, initial_capital=cap, integer_positions=integer, commissions=fee, additional_data=add)
+    t2 = B.Backtest(B.Strategy('kid', child_def(B, cfg['child']), ['a', 'b']), data, integer_positions=integer, commissions=fee, additional_data=add)
     try:
         t2.run()
     except Exception as e:
@@ -78,13 +99,13 @@ def h_nested(run, cfg):
     except Exception as e:
         run.note('raised', repr(e)[:150])
         run.end('raised')
-    kp = t.strategy['kid'].prices
+    holder = t.strategy['mid'] if cfg.get('levels') == 3 else t.strategy
+    kp = holder['kid'].prices
     sp = t2.strategy.prices
-    uni = t.strategy.universe['kid'] if not t.strategy.bankrupt else None
     run.check(len(kp) == len(sp), 'child-index-length', '%d vs %d' % (len(kp), len(sp)))
     for i in range(len(sp)):
         run.check_near(kp.iloc[i], sp.iloc[i], EPS_P, 'child-index=standalone-index', 'date %s' % sp.index[i])
-    full = t.strategy._universe['kid']
+    full = holder._universe['kid']
     for i in range(1, len(sp)):
         d = sp.index[i]
         if d in full.index:
@@ -113,5 +134,9 @@ def plan(tier):
                 tasks.append(dict(harness='nested', cfg=cfg, opts=opts))
     # parent short c with symbolic later prices: the parent may go bankrupt while the child definition is healthy
     for child in ('daily_eq', 'monthly_eq'):
-        tasks.append(dict(harness='nested', cfg=dict(child=child, int=0, fee=0, symw=0, symc=1, wc=-1.25, does='all', capgrid=200000.0), opts=opts))
+        tasks.append(dict(harness='nested', cfg=dict(child=child, int=0, fee=0, symw=0, symc=1, wc=-1.25, does='early', capgrid=200000.0), opts=opts))
+    for child in ('daily_eq', 'daily_7525'):
+        tasks.append(dict(harness='nested', cfg=dict(child=child, int=0, fee=1, symw=0, levels=3, does='all', capgrid=500000.0), opts=opts))
+        tasks.append(dict(harness='nested', cfg=dict(child=child, int=0, fee=0, symw=0, bidoffer=1, capgrid=500000.0), opts=opts))
+        tasks.append(dict(harness='nested', cfg=dict(child=child, int=0, fee=1, symw=0, bidoffer=1, levels=3, does='all', capgrid=500000.0), opts=opts))
     return tasks
